@@ -42,7 +42,12 @@ def check(ctx):
     for q in sorted(readers & reach):
         ctx.require(q in accessors, 'C07.S1',
                     'bid/ask frames are read during a run only by the point-in-time accessors (%s)' % q, ctx.fn(q).site(), key='C07.S1|frame-reader|%s' % q)
-    ctx.require(bool(readers & reach), 'C07.S1', 'the run reaches the point-in-time accessors', None)
+    if not (readers & reach) and {'CSVDailyBarDataSource.get_bid', 'CSVDailyBarDataSource.get_ask'} <= reach:
+        # the accessors are reached but read their quotes from somewhere else than the asset_bid_ask_frames table: who else reads THAT storage is not enumerated here
+        ctx.undecided('C07.S1', 'bid/ask frames are read during a run only by the point-in-time accessors', ctx.fn('CSVDailyBarDataSource.get_bid').site(),
+                      'the accessors do not read asset_bid_ask_frames: the quotes are kept under another name')
+    else:
+        ctx.require(bool(readers & reach), 'C07.S1', 'the run reaches the point-in-time accessors', None)
     raw = {fn.qn for fn, n in reads_of_attr(M, 'asset_bar_frames')}
     for q in sorted(raw & reach):
         ctx.violation('C07.S1', 'the raw bars (which include the future) are not readable during a run', ctx.fn(q).site(),
